@@ -413,3 +413,19 @@ Definition path_relative (p : list N) : bool :=
   && forallb (fun seg => negb (list_eqb N.eqb seg [46; 46]) && negb (list_eqb N.eqb seg [])) (split_on 47 p []).
 Definition chk_relative (i : list (list N * option N)) (o : bool) : bool :=
   Bool.eqb o (forallb (fun e => path_relative (fst e) && match snd e with None => true | Some _ => false end) i).
+
+(* C42: the model's `open` closure evaluated on a REAL manifest (structure exported by the harness) over the REAL
+   directory listing placed at root 1: copy root 1 to root 2, remove root 1; every key the manifest dereferences at
+   root 2 must hold the object root 1 held, the manifest must carry no base id, and nothing may be missing. *)
+Definition blob_eqb (a b : option content) : bool :=
+  match a, b with Some (CBlob x), Some (CBlob y) => N.eqb x y | _, _ => false end.
+Definition chk_copy_open (i : listing * manifest) (o : bool) : bool :=
+  let '(l, m) := i in
+  let s := store_of 1 l in
+  let s' := remove_root 1 (copy_root 1 2 s) in
+  Bool.eqb o
+    (man_local m
+     && forallb (fun ok => match ok with
+                           | Some (r, p) => N.eqb r 1 && blob_eqb (get s (1, p)) (get s' (2, p)) && match get s' (1, p) with None => true | Some _ => false end
+                           | None => false end) (man_keys 1 m)
+     && forallb (fun ok => match ok with Some (r, p) => N.eqb r 2 | None => false end) (man_keys 2 m)).
